@@ -104,7 +104,7 @@ func checkConflictRule(r *Run, k *kvCtx, rule string) {
 	p := k.p
 	fn := k.superF
 	if fn == nil || fn.Body == nil {
-		r.Undecide(rule+": supersedes not found")
+		r.Undecide(rule + ": supersedes not found")
 		return
 	}
 	op := paramObj(fn, 2)
@@ -125,7 +125,7 @@ func checkConflictRule(r *Run, k *kvCtx, rule string) {
 		}
 	}
 	if op == nil || dig == nil || tail < 0 {
-		r.Undecide(rule+": supersedes no longer has the shape 'read digest; if err != nil {...}; decide'")
+		r.Undecide(rule + ": supersedes no longer has the shape 'read digest; if err != nil {...}; decide'")
 		return
 	}
 	e := &ordEval{fn: fn, recv: op, par: dig, prog: p, boolErr: true}
@@ -138,7 +138,7 @@ func checkConflictRule(r *Run, k *kvCtx, rule string) {
 				return
 			}
 			if !ret {
-				r.Undecide(rule+": a path of supersedes falls off the end")
+				r.Undecide(rule + ": a path of supersedes falls off the end")
 				return
 			}
 			want := v > 0 || (v == 0 && l > 0)
@@ -704,6 +704,7 @@ func checkC13(r *Run) {
 	r.Rule("C13.R1.topology", "observable <- persist_delta only; persist_delta <- {persist, filter_persist} only; gossip ingress, feedback and recovery routes never reach persist_delta or observable except through filter_persist", 4)
 	r.Rule("C13.R2.dedup", "the dedup test runs inside the persisting transaction (shared with C06.R1); accepted ops are collected only after both writes succeeded and published only on a nil transaction error; persist forwards iff commitTo returned nil and commitTo returns the Commit error", 6)
 	r.Rule("C13.R4.rule", "the dedup/staleness decision is the property's rule: supersedes is true exactly for a newer version, or an equal version from a higher leaseholder (9 orderings); an operation that lost to a stored newer one is never accepted, hence never published", 1)
+	r.Rule("C13.R5.nowait", "in x/observe no blocking channel operation (a receive or send that is not a select alternative next to a default) runs while the observer mutex is held: Notify takes that mutex for every change, so waiting for a handler under it stalls the whole change stream until its buffers overflow and changes are dropped for every subscriber", 2)
 	r.Rule("C13.R3.wrapper", "txObservable.OnChange is called only by observable.OnChange; the wrapper skips the handler only for ignoreHostLeaseholder && Leaseholder == HostKey()", 2)
 	p, t, a := k.p, k.topo, k.addr
 	pos := p.Position(t.Fn.Pos())
@@ -747,6 +748,7 @@ func checkC13(r *Run) {
 	// R3
 	checkObservableWrapper(r, k)
 	checkConflictRule(r, k, "C13.R4")
+	checkObserverNoWait(r, k)
 }
 
 func checkAcceptedCollection(r *Run, k *kvCtx) {
@@ -1009,4 +1011,84 @@ func checkObservableWrapper(r *Run, k *kvCtx) {
 		}
 	}
 	r.ObPath("C13.R3.wrapper", "the wrapper hides exactly the host-led requests when asked to", p.Position(l.Pos()), ok && len(legit) == 1, "any other skip hides changes from subscribers; a missing skip shows host-led changes to IgnoreHostLeaseholder subscribers", path)
+}
+
+// checkObserverNoWait decides C13.R5.
+func checkObserverNoWait(r *Run, k *kvCtx) {
+	p := k.p
+	const opkg = "x/observe"
+	if p.Pkg(opkg) == nil {
+		r.Undecide("C13.R5: package x/observe not loaded")
+		return
+	}
+	la := NewLockAnalysis(p, func(fn *FuncNode) bool { return fn.InPkgs(opkg) })
+	la.Run()
+	for _, u := range la.Unknown {
+		r.Undecide("C13.R5 lockset: %s", u)
+	}
+	n := 0
+	for _, fn := range p.FuncsOfPkg(opkg) {
+		if fn.Body == nil {
+			continue
+		}
+		c := p.CFG(fn)
+		// select statements with a default clause never block
+		nonBlocking := map[ast.Node]bool{}
+		inspectNoLit(fn.Body, func(x ast.Node) bool {
+			sel, ok := x.(*ast.SelectStmt)
+			if !ok {
+				return true
+			}
+			hasDefault := false
+			for _, cc := range sel.Body.List {
+				if comm, ok := cc.(*ast.CommClause); ok && comm.Comm == nil {
+					hasDefault = true
+				}
+			}
+			if hasDefault {
+				for _, cc := range sel.Body.List {
+					if comm, ok := cc.(*ast.CommClause); ok && comm.Comm != nil {
+						nonBlocking[comm.Comm] = true
+					}
+				}
+			}
+			return true
+		})
+		for _, b := range c.G.Blocks {
+			if !b.Live {
+				continue
+			}
+			for _, node := range b.Nodes {
+				blocking := false
+				switch v := node.(type) {
+				case *ast.SendStmt:
+					blocking = true
+				case *ast.ExprStmt:
+					if u, ok := ast.Unparen(v.X).(*ast.UnaryExpr); ok && u.Op == token.ARROW {
+						blocking = true
+					}
+				case *ast.AssignStmt:
+					if len(v.Rhs) == 1 {
+						if u, ok := ast.Unparen(v.Rhs[0]).(*ast.UnaryExpr); ok && u.Op == token.ARROW {
+							blocking = true
+						}
+					}
+				}
+				if !blocking || nonBlocking[node] {
+					continue
+				}
+				n++
+				heldMu := ""
+				for _, h := range la.NodeStates[node] {
+					if strings.HasSuffix(h.Class, ".mu") || strings.Contains(h.Class, "observe.") {
+						heldMu = h.Class
+					}
+				}
+				r.Ob("C13.R5.nowait", "blocking channel operation in "+fn.Name+": "+describe(node), posOf(p, node), heldMu == "", "runs with "+heldMu+" held")
+			}
+		}
+	}
+	if n < 2 {
+		r.Undecide("C13.R5: only %d blocking channel operations found in x/observe (expected >= 2)", n)
+	}
 }
